@@ -11,7 +11,7 @@ mkdir -p /tmp/sw
 rm -rf $W; git -C /repo worktree prune; git -C /repo worktree add -q --detach $W HEAD || { echo "$ID worktree-failed"; exit 1; }
 ( cd $W && git apply $patch ) || { echo "$ID APPLY-FAILED"; git -C /repo worktree remove --force $W; exit 1; }
 for p in $props; do
-  out=$(/verif/bin/govc check --repo $W --property $p --tier quick --evidence /tmp/sw/evidence-$ID 2>&1); rc=$?
+  out=$(${GOVC:-/verif/bin/govc} check --repo $W --property $p --tier quick --evidence /tmp/sw/evidence-$ID 2>&1); rc=$?
   v=$(echo "$out" | grep -c "^VIOLATION")
   first=$(echo "$out" | grep "^VIOLATION" | head -3 | sed 's/.*obligation=//' | cut -c1-110 | tr '\n' ';')
   echo "$ID prop=$p rc=$rc violations=$v $first $(echo "$out" | grep '^govc:' | head -1 | cut -c1-120)"
